@@ -17,6 +17,7 @@ Sourcecode of inspiration:
 import os
 import logging
 import operator
+import re
 import time
 
 from ...common import CompilerError
@@ -659,6 +660,8 @@ class CPreProcessor:
         string_value = '"{}"'.format(" ".join(map(escape, snippet)))
         return CToken("STRING", string_value, hash_token.space, False, loc)
 
+    PP_NUMBER = re.compile(r"\.?[0-9]([eEpP][+-]|[0-9a-zA-Z_.])*")
+
     def concat(self, lhs, rhs):
         """Concatenate two tokens"""
         # An empty argument yields the other operand:
@@ -675,6 +678,17 @@ class CPreProcessor:
             return tokens[0].copy(
                 space=lhs.space,
                 first=lhs.first,
+                hideset=lhs.hideset & rhs.hideset,
+            )
+        elif self.PP_NUMBER.fullmatch(total_text):
+            # A preprocessing number, for example 12ab. This is a single
+            # token, also when it is not a valid number.
+            return CToken(
+                "NUMBER",
+                total_text,
+                lhs.space,
+                lhs.first,
+                lhs.loc,
                 hideset=lhs.hideset & rhs.hideset,
             )
         else:
